@@ -20,7 +20,7 @@ claimed = {
   text="(a) Tag half: bounded symbolic execution of the real ExtractCommentTags / splitKV / commentLinesFrom against a reference line classifier for every list of k lines x n ASCII bytes within the bound (every line classified exactly once, order kept, key/value split at the first '=' or space, repeated keys keep all values in order; go: lines skipped). (b) Attribution, partial: the real newPkg comment indexing and Doc/Comment run on a struct type with k <= 3 (thorough 4) fields, on const and type groups and on ungrouped variable declarations, in every combination of no doc / attached doc / detached comment and trailing / no trailing comment per field: Doc is exactly the group directly above, Comment exactly the trailing comment, and a previous line's trailing comment is never reported as documentation. (c) Both halves together: Doc/Comment on fields whose comment texts are arbitrary printable ASCII (multi-name fields included), and declarations 2^8 / 2^16 lines apart.",
   note="PARTIAL: every attribution scenario exists twice - with a harness-built AST (go/parser's comment-attachment rules modelled, validated by native replay) and with the real go/parser interpreted under the engine (nothing assumed); a further family (Layouts) covers functions as neighbours, multi-name specs, var groups, multi-name fields, import specs, inner trailing comments of multi-line literals. Several files, methods, interface members are not exercised.", ref="DESIGN.md §3 C12"),
  "C14": dict(
-  text="(a) The real ResultsOf on real programs: the real go/parser and go/types checker are executed under the engine (interpreted from source), so a scenario is Go source - a two-package module whose nine functions take their bodies from menus of return / assignment / call shapes (literals, forwarded and nested calls, every call graph incl. self and mutual recursion, closures passed as arguments with more / fewer results than the callee, interface calls, named results, struct fields, calls into the imported package); explored for every menu choice of every single function (thorough: four contexts + 7 pairs varying together) under 3 map-order policies: no panic, no runaway recursion, n = declared results, exactly n non-empty lists, every alternative typed and assignable to the declared type, same answer on a second call, literal-only bodies give exactly their values in source order. (b) Literal contents symbolic: integer digits, string bytes and a boolean of a literal-only function are decided by the solver through scanner, parser, checker, go/format and types.Eval (quick <= 4 bytes, thorough <= 6). (c) The recursion guard visits.visited as a lemma from every pre-state reachable by <= 3 (thorough 5) earlier guard calls with symbolic indexes, functions with up to 33 (65) results.",
+  text="(a) The real ResultsOf on real programs: the real go/parser and go/types checker are executed under the engine (interpreted from source), so a scenario is Go source - a three-package module (r <- q <- p) whose nine functions take their bodies from menus of return / assignment / call shapes (literals, forwarded and nested calls, every call graph incl. self and mutual recursion, closures passed as arguments with more / fewer results than the callee, interface calls, named results, struct fields, calls into the imported package); explored for every menu choice of every single function (thorough: four contexts + 7 pairs varying together) under 3 map-order policies: no panic, no runaway recursion, n = declared results, exactly n non-empty lists, every alternative typed and assignable to the declared type, same answer on a second call, literal-only bodies give exactly their values in source order. (b) Literal contents symbolic: integer digits, string bytes and a boolean of a literal-only function are decided by the solver through scanner, parser, checker, go/format and types.Eval (quick <= 4 bytes, thorough <= 6). (c) The recursion guard visits.visited as a lemma from every pre-state reachable by <= 3 (thorough 5) earlier guard calls with symbolic indexes, functions with up to 33 (65) results.",
   note="PARTIAL: programs are instances of the menus (no loops / switches / generics / curried calls; int, string, bool, error results; two packages); that the recursion is bounded for every program rests on the guard lemma plus the finite set of (FuncType, index) pairs (paper argument), the scenarios exercise it on every call graph over five functions. Map ranges inside go/parser / go/types run in insertion order.", ref="DESIGN.md §3 C14"),
 }
 claimed["C10"] = dict(
